@@ -140,6 +140,16 @@ CLAIMED['C19'] = (
     'enforcement of the bounds themselves is C07; known findings F13 (30 names), F20 (Maximum Drawdown max)',
     'Lean 4 kernel decision over regenerated finite tables (translator from source)')
 
+CLAIMED['C20'] = (
+    'Lean model of the command line\'s path plan (absolute input / report / JSON paths computed before the internal chdir, JSON = sibling of the report '
+    'with suffix .json) with theorems that the plan does not depend on the directory the simulator switches to, that an absolute output path is kept, and '
+    'a kernel-evaluated witness separating the whole-path str.replace derivation (pinned tree, F4) from the sibling derivation; tied to the code by a '
+    'differential: `python -m geophires_x` subprocesses x output-argument shapes x start directories vs the in-process client vs Monte-Carlo-embedded runs '
+    'on the same succeeding and failing inputs (files created compared exactly with the Lean plan, exit status, report content, MC rows).',
+    'the equality of numbers between entry points is observed by differential runs (all three go through GEOPHIRESv3.main, which the correspondence '
+    'exercises), not proved; OS / argparse trusted; F4 fixed in /repo (4506c80)',
+    'Lean 4 theorems over a path-plan model + differential correspondence of entry points (subprocess CLI / client / Monte-Carlo)')
+
 CLAIMED['C08'] = (
     'Lean refinement proof over the client state machine (cwd, argv, cache, files; operations request / rewrite / chdir), for every finite history '
     'incl. failing requests and rewrites between calls: the outputs of the (repaired) client equal those of a cache-free, history-free specification '
